@@ -69,6 +69,9 @@ func genBadDef(r *rand.Rand) badDef {
 		switch r.IntN(6) {
 		case 0:
 			n := 63 + r.IntN(8)
+			if chance(r, 1, 3) {
+				n = pick(r, []int{127, 128, 130, 200, 255, 256, 257, 300, 319, 400, 512})
+			}
 			return badDef{"too-many-handlers", fmt.Sprintf("GET(%q, h, %d middleware...)", validPath, n), func() { router.GET(validPath, h, nHandlers(n)...) }}
 		case 1:
 			a := 30 + r.IntN(33)
@@ -76,6 +79,9 @@ func genBadDef(r *rand.Rand) badDef {
 			return badDef{"too-many-handlers", fmt.Sprintf("GET(%q, h, %d middleware...).Use(%d more)", validPath, a, b), func() { router.GET(validPath, h, nHandlers(a)...).Use(nHandlers(b)...) }}
 		case 2:
 			n := 63 + r.IntN(8)
+			if chance(r, 1, 3) {
+				n = pick(r, []int{127, 128, 130, 200, 255, 256, 257, 300, 319, 400, 512})
+			}
 			return badDef{"too-many-handlers", fmt.Sprintf("Group(/g, {GET(%q, h)}, %d middleware...)", validPath, n), func() { router.Group("/g", func() { router.GET(validPath, h) }, nHandlers(n)...) }}
 		case 3:
 			a := 1 + r.IntN(62)
@@ -144,7 +150,7 @@ func fuzzPattern(r *rand.Rand) string {
 	return b.String()
 }
 
-var hostileMethods = []string{"GET", "POST", "HEAD", "OPTIONS", "", " ", "get", "GET/x", "\xff\xfe", "GETPOST", "GET ", "PUT", "TRACE", "DELETE", "CONNECT", "PATCH"}
+var hostileMethods = []string{"GET", "POST", "HEAD", "OPTIONS", "", " ", "get", "GET/x", "\xff\xfe", "GETPOST", "GET ", "PUT", "TRACE", "DELETE", "CONNECT", "PATCH", "PURGE", "PROPFIND", "LINK"}
 
 func hostilePaths(r *rand.Rand, pattern string) []string {
 	ps := []string{"", " ", "\t\n", "//", "/", "/ ", " /", "///", "/a", "/a/", "/1", "/a/1", "/a/b/c/d", "\xff\xfe", "/\xff", strings.Repeat("a/", 2048), "/{id}", "/*", "a", "%", "/%zz", "/a//b", "/.", "/..", "/a\x00b"}
@@ -205,6 +211,9 @@ func runC13(e *Env) {
 		var methods []string
 		for i, n := 0, r.IntN(3); i < n; i++ {
 			methods = append(methods, pick(r, []string{"GET", "POST", "get", " put ", "HEAD", "OPTIONS", "DEL", "", "FOO", "GET,POST", "TRACE"}))
+		}
+		if chance(r, 1, 4) {
+			methods = append([]string{}, AllMethods...) // every supported method (like Any)
 		}
 		nh := pick(r, []int{0, 0, 1, 2, 5, 30, 61, 62, 63, 70})
 		var opts []func(*rux.Router)
